@@ -221,6 +221,9 @@ func c07RandomProbe(r *rng.Rand) *c07Probe {
 	return pr
 }
 
+// c07Sentinel is an issue object owned by the application (returned by its transforms again and again).
+var c07Sentinel = &z.ZogIssue{Code: "app_busy", Message: "the application's own issue"}
+
 var collectNames = []string{"keep", "Collect(each)", "CollectList/CollectMap", "SanitizeAndCollect", "Collect(first only)"}
 
 // historyCall performs one random prior call and optionally hands its result back to the pools.
@@ -240,6 +243,17 @@ func historyCall(r *rng.Rand) string {
 		n.Number()
 		o := run.Parse(spec.Build(n, nil), map[string]any{"items": []any{map[string]any{"name": "x"}}, "other": "y"}, nil)
 		return fmt.Sprintf("Parse whose user callback panicked below the root (recovered by the caller: %v)", o.Panicked)
+	}
+	if r.Intn(14) == 0 {
+		// a transform reports with the caller's own issue object (a sentinel the application keeps), on a node that also has a
+		// Catch value: the issue is swallowed; the object stays the caller's
+		n := &spec.Node{Kind: spec.String, Mods: []spec.Mod{{Op: spec.MCatch, Val: "caught"}}, Posts: []spec.Post{{Name: "returns-own-issue", Fn: func(any) error { return c07Sentinel }}}}
+		root := structOf("a", n, "b", str())
+		root.Number()
+		for i := 0; i < 2; i++ {
+			run.Parse(spec.Build(root, nil), map[string]any{"a": "abc", "b": "x"}, nil)
+		}
+		return "2 x Parse with a PostTransform returning the caller's own *ZogIssue on a catching node (swallowed)"
 	}
 	pr := c07RandomProbe(r)
 	keys := []string{"k0", "k1", "k2", "lang", "user"}
